@@ -26,17 +26,29 @@ def gen_doc(rng, depth=0):
         kids = ''
         for _ in range(rng.choice([0, 1, 2, 3, 4])):
             k = rng.random()
-            if k < 0.45: kids += elem(d + 1)
-            elif k < 0.7: kids += rng.choice(['t', 'hello ', 'x&lt;y', '&amp;', 'é', ' '])
-            elif k < 0.8: kids += '<![CDATA[%s]]>' % rng.choice(['c', '<&>', ''])
-            elif k < 0.9: kids += '<!--%s-->' % rng.choice(['k', ' a b ', ''])
-            else: kids += '<?%s %s?>' % (rng.choice(['pi', 'x']), rng.choice(['d', 'a b']))
+            if k < 0.45: one = elem(d + 1)
+            elif k < 0.7: one = rng.choice(['t', 'hello ', 'x&lt;y', '&amp;', 'é', ' '])
+            elif k < 0.8: one = '<![CDATA[%s]]>' % rng.choice(['c', '<&>', ''])
+            elif k < 0.9: one = '<!--%s-->' % rng.choice(['k', ' a b ', ''])
+            else: one = '<?%s %s?>' % (rng.choice(['pi', 'x']), rng.choice(['d', 'a b']))
+            kids += one
+            if rng.random() < 0.25 and not (k >= 0.45 and k < 0.7):
+                kids += one                  # look-alike neighbours: node identity is never content equality
         return '<%s%s>%s</%s>' % (name, attrs, kids, name)
     pro = rng.choice(['', '', '<?xml version="1.0"?>', '<!--top-->', '<?p d?>'])
     epi = rng.choice(['', '', '<!--end-->', '\n'])
-    return pro + elem(0) + epi
+    root = elem(0)
+    if rng.random() < 0.12:
+        # attribute defaults from the DTD, for element types of the document and of the replacement values
+        rn = re.match(r'<([^\s/>]+)', root).group(1)
+        decls = ''.join('<!ATTLIST %s %s CDATA "%s">' % (rng.choice(NAMES + ['k', 'm']), rng.choice(ATTRS + ['a']), rng.choice(['d', 'dv']))
+                        for _ in range(rng.choice([1, 2, 3])))
+        if rng.random() < 0.5:
+            decls += '<!ATTLIST k a CDATA "d">'       # the replacement values write <k a="1">
+        pro += '<!DOCTYPE %s [%s]>' % (rn, decls)
+    return pro + root + epi
 
-XPATHS = ['//p:a', '//p:*', '//p:b|//p:c', '/', '/*', '//a', '//b', '//a|//b', '//*', '//@p', '//@*', '/*/*[1]', '//*[@p]', '//a//b', '/*/a', '//c/..', '//item',
+XPATHS = ['//k', '//a/@p|//a/@a',  '//p:a', '//p:*', '//p:b|//p:c', '/', '/*', '//a', '//b', '//a|//b', '//*', '//@p', '//@*', '/*/*[1]', '//*[@p]', '//a//b', '/*/a', '//c/..', '//item',
           '//text()', '//comment()', 'count(//a)', 'string(/*)', '1+', '//a[', '//nosuch', '//*[last()]', '/*/*[position()=2]', '//a/@q']
 VALUES = ['', 'new', '<k/>', 'x<k a="1">y</k>z', '<!--c-->', '<![CDATA[<raw>]]>', 'a&amp;b', '<k><m/><m/>t</k>', 'two<k/><k/>',
           '<?pi d?>', '&#65;', '<p:g xmlns:p="u"/>', '<k p:a="1" xmlns:p="u"/>', '<k', 'a<b', '&undeclared;', '<k/><!--c-->', 'é\U0001F600', ' ', '<k>&lt;</k>']
@@ -91,6 +103,11 @@ def check(run):
         if rng.random() < 0.1 or 'p:' in xp:
             ns = ' %s=%s' % (enc('p'), enc('u'))
         cases.append((tool, noindent, doc, xp, val, ns))
+    # crafted: the replacement writes an attribute for which the document's DTD declares a default
+    for dt in ('<!DOCTYPE r [<!ATTLIST k a CDATA "d">]>', '<!DOCTYPE r [<!ATTLIST k a CDATA #FIXED "1" b CDATA "x">]>', '<!DOCTYPE r [<!ATTLIST c q CDATA "d"><!ATTLIST k a NMTOKENS " u  v ">]>'):
+        for v in ('<k a="1"/>', 'x<k a="1">y</k>z', '<k/>', '<k a="1"><k a="1"/></k>'):
+            for x in ('/r/c', '/r', '/', '//c'):
+                cases.append(('xe', 1, dt + '<r><c q="1">t</c><c/></r>', x, v, ''))
     lines = ['%s %d %s %s %s%s' % (t, ni, enc(d), enc(x), enc(v) if v != '-' else '-', ns) for t, ni, d, x, v, ns in cases]
     rc, outs = lib.run_bin(lib.rust_bin(), ['cli'], lines, timeout=1500, shards=min(12, lib.NPROC))
     # model and spec on the xe cases that reached the editing stage
@@ -145,6 +162,8 @@ def check(run):
                 fail(i, 'xe indented output is not a well-formed document', 'xe-indent-wellformed')
             continue
         feats = frag_features(f.get('frag', ''))
+        if '<!DOCTYPE' in d and '@' in x:
+            continue          # a selected attribute may be one the DTD supplies: not in the dump (specified attributes only)
         # correspondence: model vs tool
         m = mo.get(i)
         if m is not None and m != 'unmodelled':
